@@ -135,6 +135,30 @@ def generate(rng, tier, seed):
                                 c = Case(f"{ver}:whitespace-run-inserted", {"width": w, "fix": fix})
                                 check_verdict(c, unwrap_case(c, kbpk, s), s, G, hl, key)
                                 yield c
+                # coherent multi-edits of the MAC: the same XOR difference applied to two (or four) MAC bytes, two MAC bytes exchanged,
+                # every MAC byte complemented - differences that cancel under a folding comparison
+                mac = bytes.fromhex(G[n - 2 * ml:])
+                for _ in range(8 if not full else 40):
+                    i, j = rng.sample(range(ml), 2)
+                    delta = rng.choice([0x01, 0x80, 0xFF, rng.randrange(1, 256)])
+                    m2 = bytearray(mac)
+                    m2[i] ^= delta
+                    m2[j] ^= delta
+                    if rng.random() < 0.3 and ml >= 4:
+                        k, l = rng.sample([x for x in range(ml) if x not in (i, j)], 2)
+                        m2[k] ^= delta
+                        m2[l] ^= delta
+                    cands = [bytes(m2)]
+                    m3 = bytearray(mac)
+                    m3[i], m3[j] = m3[j], m3[i]
+                    cands += [bytes(m3), bytes(b ^ 0xFF for b in mac), mac[::-1]]
+                    for m_ in cands:
+                        if m_ == mac:
+                            continue
+                        s = G[:n - 2 * ml] + m_.hex().upper()
+                        c = Case(f"{ver}:coherent-mac-edit", {})
+                        check_verdict(c, unwrap_case(c, kbpk, s), s, G, hl, key)
+                        yield c
                 # random multi-edits
                 for _ in range(6 if not full else 30):
                     s = list(G)
